@@ -129,7 +129,14 @@ func checkStateGate(c *Ctx, li *lockInfo, rule, pkg, label, method string, sinks
 				return
 			}
 			h := cl.Call.StaticCallee()
-			if h == nil || !gNewFuncs[h] || len(errResults(cl)) == 0 {
+			if h == nil || !gNewFuncs[h] {
+				return
+			}
+			// the helper reports "still" by a nil error or by a true `ok` result
+			nres := h.Signature.Results().Len()
+			byErr := len(errResults(cl)) > 0
+			byOK := !byErr && nres > 0 && types.Identical(h.Signature.Results().At(nres-1).Type().Underlying(), types.Typ[types.Bool])
+			if !byErr && !byOK {
 				return
 			}
 			ht, hn := indexGetTests(h, pkg, "0", "2")
@@ -138,13 +145,34 @@ func checkStateGate(c *Ctx, li *lockInfo, rule, pkg, label, method string, sinks
 			}
 			hr := reach(h, nil, boolEdgeCut(ht, true), nil)
 			for _, ret := range returnsOf(h) {
-				if hr(ret) && isNilErrorReturn(ret) {
+				if !hr(ret) {
+					continue
+				}
+				if byErr && isNilErrorReturn(ret) {
 					return // the helper can succeed for a space that is neither registered nor ready
+				}
+				if byOK {
+					if k, isK := strip(ret.Results[nres-1]).(*ssa.Const); !isK || k.Value == nil || k.Value.String() != "false" {
+						return
+					}
 				}
 			}
 			found = true
 			gateFn = h
-			cut = errorEdgeCut(f, cl, false)
+			if byErr {
+				cut = errorEdgeCut(f, cl, false)
+			} else {
+				var okv ssa.Value = cl
+				if nres > 1 {
+					okv = resultOf(cl, nres-1)
+				}
+				ot := boolTestsOf(f, okv)
+				if okv == nil || len(ot) == 0 {
+					found = false
+					return
+				}
+				cut = boolEdgeCut(ot, true)
+			}
 		})
 		if !found {
 			c.Bad(rule, key, c.Pos(f.Pos()), "reason=anchor-missing: no membership tests on workSpaceIndex[Registered] and workSpaceIndex[Ready]")
@@ -337,6 +365,7 @@ func checkC11(c *Ctx) Meta {
 
 	// ---- LOAD
 	if f := c.MustFn("C11-LOAD", "poc/engine/spacekeeper/capacity", "generateInitialIndex"); f != nil {
+		f0 := f
 		adds := callsIn(f, "(*"+pkgCapacity+".SpaceKeeper).addWorkSpaceToIndex")
 		if len(adds) == 0 {
 			c.Bad("C11-LOAD", "generateInitialIndex:anchor", c.Pos(f.Pos()), "reason=anchor-missing: no addWorkSpaceToIndex call")
@@ -350,7 +379,9 @@ func checkC11(c *Ctx) Meta {
 				c.Bad("C11-LOAD", key, c.Pos(f.Pos()), "check not found: "+what)
 				return
 			}
-			r := reach(f, nil, cut, nil)
+			// walked from the anchored function: a check may sit in it while the indexing call sits in a
+			// helper (reach follows the helper's call and walks the helper from its entry with the same cut)
+			r := reach(f0, nil, cut, nil)
 			for _, a := range adds {
 				if r(a) {
 					c.Bad("C11-LOAD", key, c.Pos(a.Pos()), "a file is indexed on a path that does not pass: "+what)
@@ -361,8 +392,8 @@ func checkC11(c *Ctx) Meta {
 		}
 		// a. name pattern
 		var t []boolTest
-		for _, m := range callsIn(f, "(*regexp.Regexp).MatchString") {
-			t = append(t, boolTestsOf(f, m)...)
+		for _, m := range callsIn(f0, "(*regexp.Regexp).MatchString") {
+			t = append(t, boolTestsOf(m.Parent(), m)...)
 		}
 		mustCut("generateInitialIndex:name-pattern", "the file name matches the plot-file pattern", boolEdgeCut(t, true), len(t) > 0)
 		// b. parse
